@@ -145,6 +145,17 @@ FRACTIONAL = [{"minimum": -2.5}, {"exclusiveMinimum": 2.5}, {"maximum": 7.5}, {"
               {"minimum": 2.5, "exclusiveMinimum": True, "maximum": 9.5}, {"minimum": -9.5, "maximum": -2.5, "exclusiveMaximum": True}]
 
 
+# bounds at zero and at the limits of the sized kinds (where --min-sized-ints drops or keeps checks)
+EDGE = [{"exclusiveMinimum": 0}, {"minimum": 0, "exclusiveMinimum": True}, {"minimum": -5, "exclusiveMinimum": 0}, {"minimum": 0}, {"minimum": 0, "maximum": 255},
+        {"exclusiveMinimum": 0, "maximum": 255}, {"exclusiveMinimum": -1, "exclusiveMaximum": 256}, {"minimum": -128, "exclusiveMaximum": 128}, {"minimum": -128, "maximum": 127},
+        {"exclusiveMinimum": -129, "maximum": 100}, {"minimum": 1, "maximum": 65535, "multipleOf": 5}, {"exclusiveMaximum": 0}, {"maximum": 0, "exclusiveMaximum": True},
+        {"minimum": 0, "exclusiveMinimum": True, "maximum": 100, "exclusiveMaximum": True}, {"minimum": -10, "exclusiveMinimum": True, "maximum": 10}]
+
+
+def e2e_edges():
+    return wrap_positions([(dict(s, type="integer"), pos) for s in EDGE for pos in ("required", "optional", "nullable")])
+
+
 def e2e_fractional():
     return wrap_positions([(dict(s, type="integer"), pos) for s in FRACTIONAL for pos in ("required", "optional", "nullable")])
 
@@ -176,10 +187,17 @@ def run_e2e(ctx):
     from vlib.valuecheck import build_cases, evaluate
     from vlib.kitchen import run_cases
     classes = {"bound", "number-valid", "optional-absent", "null-allowed", "valid"}
-    sysm = e2e_systematic(ctx)
+    sysm = e2e_systematic(ctx) + e2e_edges()
     n = 20 if ctx.tier == "quick" else 300
     cases = build_cases(ctx, len(sysm) + n, ["integer", "number"], classes | {"type"}, "c05x", extra_schemas=sysm, docs_per=2,
                         gen_kwargs={"allow_formats": False, "allow_enums": False})
+    # the integer half again under --min-sized-ints: the property quantifies over every option combination
+    ints = e2e_edges() + [r for r in sysm + e2e_fractional() if '"integer"' in json.dumps(r)][::2]
+    ms = build_cases(ctx, len(ints), ["integer"], classes | {"type"}, "c05m", extra_schemas=ints, docs_per=2, minsized=True,
+                     gen_kwargs={"allow_formats": False, "allow_enums": False})
+    for c in ms:
+        c.fam = "min-sized/" + c.fam
+    cases = cases + ms
     run_cases(ctx, cases, "c05e")
     evaluate(ctx, cases, classes, {"bound": "invalid", "number-valid": "valid", "optional-absent": "by-spec", "null-allowed": "valid", "valid": "valid"},
              "numeric bounds")
